@@ -18,6 +18,10 @@
 #include <unistd.h>
 #include <netdb.h>
 #include <arpa/inet.h>
+#include <sys/stat.h>
+#include <sys/syscall.h>
+#include <fcntl.h>
+#include <time.h>
 
 /* ------------------------------------------------------------------------------------------
  * virtual files
@@ -28,6 +32,7 @@ static struct {
   unsigned char *data;
   size_t         len;
   int            present;
+  long long      mtime; /* modification time reported by stat() (virtual seconds) */
 } vfs[MAXVF];
 static int vfs_hide = 0;
 
@@ -49,6 +54,42 @@ static int vfs_find(const char *path)
   return -1;
 }
 
+/* time(NULL) and stat() as the library sees them: virtual files have a modification time, and the wall clock can be
+ * pinned (`now <secs>`), so that "the hosts file was rewritten in the second in which it had been loaded" is scriptable */
+static long long vtime_now = 0; /* 0 = real clock */
+time_t time(time_t *out)
+{
+  time_t v;
+  if (vtime_now) {
+    v = (time_t)vtime_now;
+  } else {
+    struct timespec ts;
+    clock_gettime(CLOCK_REALTIME, &ts);
+    v = ts.tv_sec;
+  }
+  if (out) {
+    *out = v;
+  }
+  return v;
+}
+static int vfs_find(const char *path);
+int stat(const char *path, struct stat *st)
+{
+  if (path != NULL && vfs_is_virtual(path)) {
+    int i = vfs_find(path);
+    if (vfs_hide || i < 0 || !vfs[i].present) {
+      errno = ENOENT;
+      return -1;
+    }
+    memset(st, 0, sizeof(*st));
+    st->st_mode  = S_IFREG | 0644;
+    st->st_size  = (off_t)vfs[i].len;
+    st->st_mtime = (time_t)vfs[i].mtime;
+    return 0;
+  }
+  return (int)syscall(SYS_newfstatat, AT_FDCWD, path, st, 0);
+}
+
 static void vfs_set(const char *path, const unsigned char *data, size_t len, int present)
 {
   int i = vfs_find(path);
@@ -64,6 +105,7 @@ static void vfs_set(const char *path, const unsigned char *data, size_t len, int
   vfs[i].data    = NULL;
   vfs[i].len     = 0;
   vfs[i].present = present;
+  vfs[i].mtime   = (long long)time(NULL);
   if (present) {
     vfs[i].data = malloc(len + 1);
     memcpy(vfs[i].data, data, len);
@@ -417,19 +459,24 @@ static void op_servers(const char *hex, int ignore_invalid)
 
 /* hosts <path> <q>...   q = n:<namehex> (search by host name) | a:<texthex> (search by address text)
  * per query: ok|<primary>;al=<aliases>;ad=<addresses in file order>   (ares_hosts_entry_to_addrinfo) */
-static void op_hosts(int nt, char **t)
+static ares_channel_t *hosts_keep = NULL; /* `hostsk`: one channel for all lookups of the case (its cached copy of the file matters) */
+static void            op_hosts(int nt, char **t)
 {
   struct ares_options o;
-  ares_channel_t     *ch = NULL;
+  int                 keep = !strcmp(t[0], "hostsk");
+  ares_channel_t     *ch   = keep ? hosts_keep : NULL;
   int                 i;
   int                 hide = vfs_hide;
   memset(&o, 0, sizeof(o));
   o.hosts_path = t[1];
   vfs_hide     = 1;
-  if (ares_init_options(&ch, &o, ARES_OPT_HOSTS_FILE) != ARES_SUCCESS) {
+  if (ch == NULL && ares_init_options(&ch, &o, ARES_OPT_HOSTS_FILE) != ARES_SUCCESS) {
     vfs_hide = hide;
     puts("init-failed");
     return;
+  }
+  if (keep) {
+    hosts_keep = ch;
   }
   vfs_hide = hide;
   for (i = 2; i < nt; i++) {
@@ -489,7 +536,9 @@ static void op_hosts(int nt, char **t)
     fputs("ok", stdout);
   }
   fputc('\n', stdout);
-  ares_destroy(ch);
+  if (!keep) {
+    ares_destroy(ch);
+  }
 }
 
 static void op_aliases(const char *namehex, unsigned int flags)
@@ -784,7 +833,8 @@ static void vs_gai_cb(void *arg, int status, int timeouts, struct ares_addrinfo 
   ares_freeaddrinfo(ai);
 }
 
-/* walk <search|gai> <name-hex> <ndots> <flags> <domains> <outcome,outcome,...> */
+static void wait_reinit(ares_channel_t *ch);
+/* walk <search|gai> <name-hex> <ndots | conf:hex[:hex]> <flags> <domains> <outcome,outcome,...> */
 static void op_walk(char **t)
 {
   static const struct ares_socket_functions_ex funcs = { 1, 0, vs_socket, vs_close, vs_setsockopt, vs_connect,
@@ -811,6 +861,37 @@ static void op_walk(char **t)
   o.tries          = 1;
   o.ndots          = atoi(t[3]);
   o.qcache_max_ttl = 0;
+  if (!strncmp(t[3], "conf:", 5)) {
+    /* ndots comes from the system configuration: conf:<resolv.conf hex>[:<resolv.conf hex after a change + ares_reinit>] */
+    char  *c1 = strdup(t[3] + 5), *c2 = strchr(c1, ':');
+    char  *d;
+    size_t len;
+    if (c2) {
+      *c2++ = 0;
+    }
+    d = unhex_str(c1, &len);
+    vfs_set("/virt/walk.conf", (unsigned char *)d, len, 1);
+    free(d);
+    o.resolvconf_path = (char *)"/virt/walk.conf";
+    vfs_hide          = 0;
+    if (ares_init_options(&ch, &o, ARES_OPT_FLAGS | ARES_OPT_SERVERS | ARES_OPT_LOOKUPS | ARES_OPT_TRIES | ARES_OPT_RESOLVCONF |
+                                     ARES_OPT_QUERY_CACHE) != ARES_SUCCESS) {
+      vfs_hide = hide;
+      puts("init-failed");
+      free(name);
+      free(lk);
+      free(c1);
+      return;
+    }
+    if (c2) {
+      d = unhex_str(c2, &len);
+      vfs_set("/virt/walk.conf", (unsigned char *)d, len, 1);
+      free(d);
+      ares_reinit(ch);
+      wait_reinit(ch);
+    }
+    free(c1);
+  } else {
   vfs_hide         = 1;
   if (ares_init_options(&ch, &o, ARES_OPT_FLAGS | ARES_OPT_SERVERS | ARES_OPT_LOOKUPS | ARES_OPT_TRIES | ARES_OPT_NDOTS |
                                    ARES_OPT_QUERY_CACHE) != ARES_SUCCESS) {
@@ -819,6 +900,7 @@ static void op_walk(char **t)
     free(name);
     free(lk);
     return;
+  }
   }
   vfs_hide = hide;
   ares_set_socket_functions_ex(ch, &funcs, NULL);
@@ -1315,6 +1397,11 @@ static void op_chan(int nt, char **t)
 /* ------------------------------------------------------------------------------------------ */
 static void reset_all(void)
 {
+  if (hosts_keep) {
+    ares_destroy(hosts_keep);
+    hosts_keep = NULL;
+  }
+  vtime_now = 0;
   chans_reset();
   vfs_reset();
   nifs = 0;
@@ -1396,7 +1483,13 @@ int main(void)
       op_sortlist(t[1]);
     } else if (!strcmp(t[0], "servers") && nt == 3) {
       op_servers(t[1], atoi(t[2]));
-    } else if (!strcmp(t[0], "hosts") && nt >= 2) {
+    } else if (!strcmp(t[0], "now") && nt == 2) {
+      vtime_now = strtoll(t[1], NULL, 10);
+      puts("ok");
+    } else if (!strcmp(t[0], "mtime") && nt == 3 && vfs_is_virtual(t[1]) && vfs_find(t[1]) >= 0) {
+      vfs[vfs_find(t[1])].mtime = strtoll(t[2], NULL, 10);
+      puts("ok");
+    } else if ((!strcmp(t[0], "hosts") || !strcmp(t[0], "hostsk")) && nt >= 2) {
       op_hosts(nt, t);
     } else if (!strcmp(t[0], "aliases") && nt == 3) {
       op_aliases(t[1], (unsigned int)strtoul(t[2], NULL, 0));
